@@ -163,7 +163,7 @@ func TestC34(t *testing.T) {
 	spent, count := map[string]float64{}, map[string]int{}
 	groups := map[string]*collected{}
 	r := evid.Rand(34)
-	n := evid.N(350, 4000)
+	n := evid.N(350, 2000)
 	perSource := map[string]int{}
 	for i := 0; i < n; i++ {
 		src := drawSource(r)
